@@ -210,9 +210,11 @@ def main(tier, seed):
     if tier == 'thorough':
         FLAVOURS.append('dict')
     runs = {'quick': [dict(MaxDepth=2, SecondDepth=0, Family='"scope"'), dict(MaxDepth=2, SecondDepth=0, Family='"vars"'),
-                      dict(MaxDepth=2, SecondDepth=1, Family='"ref"'), dict(MaxDepth=2, SecondDepth=0, Family='"kw"')],
+                      dict(MaxDepth=2, SecondDepth=1, Family='"ref"'), dict(MaxDepth=2, SecondDepth=0, Family='"kw"'),
+                      dict(MaxDepth=2, SecondDepth=0, Family='"deep"')],
             'thorough': [dict(MaxDepth=2, SecondDepth=1, Family='"scope"'), dict(MaxDepth=2, SecondDepth=1, Family='"vars"'),
-                         dict(MaxDepth=2, SecondDepth=1, Family='"ref"'), dict(MaxDepth=2, SecondDepth=0, Family='"kw"')]}[tier]
+                         dict(MaxDepth=2, SecondDepth=1, Family='"ref"'), dict(MaxDepth=2, SecondDepth=0, Family='"kw"'),
+                         dict(MaxDepth=2, SecondDepth=0, Family='"deep"')]}[tier]
     results = []
     for consts in runs:
         res, rs = vlib.map_states('MC_C07', worker, constants=consts)
